@@ -122,3 +122,25 @@ func TestCommonPrefixAfterTheMarkerIsListed(t *testing.T) {
 		}
 	}
 }
+
+// OPEN FINDING (fails on the current tree): with a delimiter, a directory that is not empty is never asked whether it is
+// an object, so the directory object "d/" is missing from a listing with prefix "d/" once it has a child.
+func TestDirectoryObjectWithChildrenIsListedUnderItsOwnPrefix(t *testing.T) {
+	g := gwtest.Start(t, gwtest.Options{})
+	g.MustStatus(g.Put(g.RootC, "/bkt", nil, nil), 200, "create bucket")
+	g.MustStatus(g.Put(g.RootC, "/bkt/d/", nil, nil), 200, "put directory object d/")
+	l := g.Get(g.RootC, "/bkt?delimiter=/&prefix=d/", nil)
+	if !strings.Contains(string(l.Body), "<Key>d/</Key>") {
+		t.Fatalf("empty directory object d/ under its own prefix: %s", l.Body)
+	}
+	g.MustStatus(g.Put(g.RootC, "/bkt/d/x", []byte("x"), nil), 200, "put d/x")
+	l = g.Get(g.RootC, "/bkt?delimiter=/&prefix=d/", nil)
+	if !strings.Contains(string(l.Body), "<Key>d/</Key>") || !strings.Contains(string(l.Body), "<Key>d/x</Key>") {
+		t.Errorf("GET /bkt?delimiter=/&prefix=d/ after d/x was added: want the keys d/ and d/x, got %s", l.Body)
+	}
+	// without a delimiter both are listed
+	l = g.Get(g.RootC, "/bkt?prefix=d/", nil)
+	if !strings.Contains(string(l.Body), "<Key>d/</Key>") || !strings.Contains(string(l.Body), "<Key>d/x</Key>") {
+		t.Errorf("GET /bkt?prefix=d/: %s", l.Body)
+	}
+}
